@@ -5,84 +5,93 @@
 verus! {
 
 // =================================================================================== C07: REP
-// State as far as the REP protocol is concerned: CX, ZF, and everything the string body may touch (`rest`).
-pub struct St { pub cx: nat, pub zf: bool, pub rest: int }
+// The state the REP protocol runs on is the machine itself (`VM`: registers, flags, 1 MB memory); the string body is an ARBITRARY
+// function of the whole machine that leaves CX alone (the L1 frame contract of the ten string functions, Kani units c_movs_* ..
+// c_scas_*).  The step function below is NOT a restatement by hand: the three bridges at the end of this section are the REAL
+// productions `string = "rep"|"repz"|"repnz", string_instructions` (interpreter.rs, verbatim but for rewrite R17) with
+// `step(..)` as their postcondition.
+//@item src/lib/util/interpreter_util.rs enum State
+//@item src/lib/arch.rs const FLAG_ZERO
 pub enum Out { Next, Repeat }
 #[derive(PartialEq, Eq)]
 pub enum Prefix { Rep, Repe, Repne }
 
-/// L1 frame contract of a string body (units c_movs_* .. c_scas_*): CX is never changed.
-pub open spec fn body_ok(body: spec_fn(St) -> St) -> bool { forall|s: St| #[trigger] body(s).cx == s.cx }
+pub open spec fn zf(s: VM) -> bool { s.arch.flag & FLAG_ZERO != 0 }
+pub open spec fn dec_cx(s: VM) -> VM { VM { arch: i8086 { cx: (s.arch.cx - 1) as u16, ..s.arch }, mem: s.mem } }
 
-/// The step contract, exactly the clauses of the Kani units h_string_{rep,repz,repnz}_*:
-///   CX = 0  : body not executed, state unchanged, NEXT
+/// L1 frame contract of a string body (units c_movs_* .. c_scas_*): CX is never changed.
+pub open spec fn body_ok(body: spec_fn(VM) -> VM) -> bool { forall|s: VM| #[trigger] body(s).arch.cx == s.arch.cx }
+
+/// One issue of the prefixed line (= the postcondition of the three real productions, see the bridges):
+///   CX = 0  : body not executed, machine unchanged, NEXT
 ///   CX > 0  : body exactly once, then CX-1; REPEAT (REPE/REPNE: NEXT when the body's ZF stops it)
-pub open spec fn step(p: Prefix, body: spec_fn(St) -> St, s: St) -> (St, Out) {
-    if s.cx == 0 { (s, Out::Next) } else {
+pub open spec fn step(p: Prefix, body: spec_fn(VM) -> VM, s: VM) -> (VM, Out) {
+    if s.arch.cx == 0 { (s, Out::Next) } else {
         let b = body(s);
-        let s2 = St { cx: (s.cx - 1) as nat, zf: b.zf, rest: b.rest };
-        let go = match p { Prefix::Rep => true, Prefix::Repe => b.zf, Prefix::Repne => !b.zf };
-        (s2, if go { Out::Repeat } else { Out::Next })
+        let go = match p { Prefix::Rep => true, Prefix::Repe => zf(b), Prefix::Repne => !zf(b) };
+        (dec_cx(b), if go { Out::Repeat } else { Out::Next })
     }
 }
 
 /// The driver's part (src/driver/driver.rs, `State::REPEAT => {}`): the same line is issued again until
-/// the outcome is not REPEAT.  Returns the final state and the number of times the body ran.
-pub open spec fn drive(p: Prefix, body: spec_fn(St) -> St, s: St, fuel: nat) -> (St, nat)
+/// the outcome is not REPEAT (an obligation of unit `driver`).  Returns the final machine and the number of times the body ran.
+pub open spec fn drive(p: Prefix, body: spec_fn(VM) -> VM, s: VM, fuel: nat) -> (VM, nat)
     decreases fuel
 {
     if fuel == 0 { (s, 0) } else {
         let (s2, o) = step(p, body, s);
         match o {
-            Out::Next => (s2, if s.cx == 0 { 0 } else { 1 }),
+            Out::Next => (s2, if s.arch.cx == 0 { 0 } else { 1 }),
             Out::Repeat => { let (s3, n) = drive(p, body, s2, (fuel - 1) as nat); (s3, n + 1) }
         }
     }
 }
 
 /// body applied n times (CX untouched by it, decremented by the protocol)
-pub open spec fn times(body: spec_fn(St) -> St, s: St, n: nat) -> St
+pub open spec fn times(body: spec_fn(VM) -> VM, s: VM, n: nat) -> VM
     decreases n
 {
-    if n == 0 { s } else { let b = body(s); times(body, St { cx: (s.cx - 1) as nat, zf: b.zf, rest: b.rest }, (n - 1) as nat) }
+    if n == 0 { s } else { times(body, dec_cx(body(s)), (n - 1) as nat) }
 }
 
 /// REP: the body executes exactly CX times (not at all when CX = 0) and CX ends at 0.
-pub proof fn lemma_rep_exactly_cx_times(body: spec_fn(St) -> St, s: St)
+pub proof fn lemma_rep_exactly_cx_times(body: spec_fn(VM) -> VM, s: VM)
     requires body_ok(body),
     ensures
-        drive(Prefix::Rep, body, s, s.cx + 1).1 == s.cx,
-        drive(Prefix::Rep, body, s, s.cx + 1).0.cx == 0,
-        drive(Prefix::Rep, body, s, s.cx + 1).0 == times(body, s, s.cx),
-    decreases s.cx
+        drive(Prefix::Rep, body, s, (s.arch.cx + 1) as nat).1 == s.arch.cx,
+        drive(Prefix::Rep, body, s, (s.arch.cx + 1) as nat).0.arch.cx == 0,
+        drive(Prefix::Rep, body, s, (s.arch.cx + 1) as nat).0 == times(body, s, s.arch.cx as nat),
+    decreases s.arch.cx
 {
-    if s.cx > 0 {
-        let b = body(s);
-        let s2 = St { cx: (s.cx - 1) as nat, zf: b.zf, rest: b.rest };
+    if s.arch.cx > 0 {
+        let s2 = dec_cx(body(s));
+        assert(s2.arch.cx == s.arch.cx - 1);
         lemma_rep_exactly_cx_times(body, s2);
     }
 }
 
 /// REPE / REPNE: the body executes k <= CX times, CX ends at CX0 - k, and either k = CX0 or the k-th
 /// execution is the first one whose comparison stopped the repetition.
-pub proof fn lemma_repe_repne(p: Prefix, body: spec_fn(St) -> St, s: St)
+pub proof fn lemma_repe_repne(p: Prefix, body: spec_fn(VM) -> VM, s: VM)
     requires body_ok(body), p != Prefix::Rep,
     ensures
-        drive(p, body, s, s.cx + 1).1 <= s.cx,
-        drive(p, body, s, s.cx + 1).0.cx == s.cx - drive(p, body, s, s.cx + 1).1,
-        drive(p, body, s, s.cx + 1).0 == times(body, s, drive(p, body, s, s.cx + 1).1),
+        drive(p, body, s, (s.arch.cx + 1) as nat).1 <= s.arch.cx,
+        drive(p, body, s, (s.arch.cx + 1) as nat).0.arch.cx == s.arch.cx - drive(p, body, s, (s.arch.cx + 1) as nat).1,
+        drive(p, body, s, (s.arch.cx + 1) as nat).0 == times(body, s, drive(p, body, s, (s.arch.cx + 1) as nat).1),
         // stopped early only because the last comparison said so
-        drive(p, body, s, s.cx + 1).1 < s.cx ==> drive(p, body, s, s.cx + 1).1 > 0
-            && (drive(p, body, s, s.cx + 1).0.zf == (p == Prefix::Repne)),
-    decreases s.cx
+        drive(p, body, s, (s.arch.cx + 1) as nat).1 < s.arch.cx ==> drive(p, body, s, (s.arch.cx + 1) as nat).1 > 0
+            && (zf(drive(p, body, s, (s.arch.cx + 1) as nat).0) == (p == Prefix::Repne)),
+    decreases s.arch.cx
 {
-    if s.cx > 0 {
+    if s.arch.cx > 0 {
         let b = body(s);
-        let s2 = St { cx: (s.cx - 1) as nat, zf: b.zf, rest: b.rest };
+        let s2 = dec_cx(b);
+        assert(s2.arch.cx == s.arch.cx - 1);
+        assert(zf(s2) == zf(b));
         lemma_repe_repne(p, body, s2);
-        let go = match p { Prefix::Rep => true, Prefix::Repe => b.zf, Prefix::Repne => !b.zf };
+        let go = match p { Prefix::Rep => true, Prefix::Repe => zf(b), Prefix::Repne => !zf(b) };
         if go {
-            let n = drive(p, body, s2, s2.cx + 1).1;
+            let n = drive(p, body, s2, (s2.arch.cx + 1) as nat).1;
             assert(times(body, s, (n + 1) as nat) == times(body, s2, n));
         } else {
             assert(times(body, s2, 0) == s2);
@@ -90,6 +99,52 @@ pub proof fn lemma_repe_repne(p: Prefix, body: spec_fn(St) -> St, s: St)
         }
     }
 }
+
+// ---- bridges (C07): the REAL prefix productions have `step` as their postcondition.  The instruction handed over by
+// `string_instructions` is a function pointer (`StringOp = fn(&mut VM)`), a type Verus does not have: rewrite R17 drops the parameter
+// and turns its call `f(vm)` into `verif_fnptr_apply(vm)`, whose effect on the WHOLE machine is the uninterpreted `strop_eff` —
+// the universally quantified `body` of the lemmas.  Assumed of it: it leaves CX alone (= `body_ok`; discharged per string function
+// by the Kani units c_movs_* .. c_scas_*, register clauses).
+pub uninterp spec fn strop_eff(s: VM) -> VM;
+#[verifier::external_body]
+pub fn verif_fnptr_apply(vm: &mut VM)
+    ensures *final(vm) == strop_eff(*old(vm)), final(vm).arch.cx == old(vm).arch.cx,
+{ }
+pub open spec fn out_of(r: State) -> Out { if r is REPEAT { Out::Repeat } else { Out::Next } }
+//@action src/lib/interpreter/interpreter.rs string = "rep", string_instructions as bridge_rep
+//@contract
+//@dropunused
+//@fnptr f
+    ensures
+        *final(vm) == step(Prefix::Rep, |s: VM| strop_eff(s), *old(vm)).0, //# C07 bridge.rep_is_one_step_of_the_rep_lemma
+        out_of(r) == step(Prefix::Rep, |s: VM| strop_eff(s), *old(vm)).1, //# C07 bridge.rep_asks_for_repetition_like_the_lemmas_step
+        r is REPEAT || r is NEXT,
+//@end
+//@action src/lib/interpreter/interpreter.rs string = "repz", string_instructions as bridge_repz
+//@contract
+//@dropunused
+//@fnptr f
+    ensures
+        *final(vm) == step(Prefix::Repe, |s: VM| strop_eff(s), *old(vm)).0, //# C07 bridge.rep_is_one_step_of_the_rep_lemma
+        out_of(r) == step(Prefix::Repe, |s: VM| strop_eff(s), *old(vm)).1, //# C07 bridge.rep_asks_for_repetition_like_the_lemmas_step
+        r is REPEAT || r is NEXT,
+//@end
+//@action src/lib/interpreter/interpreter.rs string = "repnz", string_instructions as bridge_repnz
+//@contract
+//@dropunused
+//@fnptr f
+    ensures
+        *final(vm) == step(Prefix::Repne, |s: VM| strop_eff(s), *old(vm)).0, //# C07 bridge.rep_is_one_step_of_the_rep_lemma
+        out_of(r) == step(Prefix::Repne, |s: VM| strop_eff(s), *old(vm)).1, //# C07 bridge.rep_asks_for_repetition_like_the_lemmas_step
+        r is REPEAT || r is NEXT,
+//@end
+/// the unprefixed production: the instruction runs exactly once, nothing else happens, NEXT
+//@action src/lib/interpreter/interpreter.rs string = string_instructions as bridge_string_plain
+//@contract
+//@dropunused
+//@fnptr f
+    ensures *final(vm) == strop_eff(*old(vm)), r is NEXT, //# C07 bridge.unprefixed_string_instruction_runs_exactly_once
+//@end
 
 // ============================================================================== C05: PUSH / POP
 pub open spec fn physi(seg: int, off: int) -> int { (seg * 16 + off) % 0x100000 }
